@@ -192,18 +192,24 @@ CHECKS["C14"] = dict(
     design="§6 C14", technique="Lean 4 proof (sorting makes set iteration order irrelevant; model is a pure function; partial) + perturbation runs of the real code")
 
 CHECKS["C06"] = dict(
-    text="Theorems (Lean 4) about telingo's own part in treating schemata: elements_sem / element_sem — the formula built from the "
-         "ground elements of `&tel{ f(X) : c(X) }` is the conjunction over the elements of (condition → element formula), for any "
-         "number of elements in any order (translate_elements sorts by representation); interval_add / interval_addAll — "
-         "IntervalSet.add keeps the sorted-disjoint-nonadjacent invariant and the point set is exactly the union of the added "
-         "ranges (so the merged ranges of a schema's domain rule cover what the ranges of each instance cover).  PARTIAL: that "
-         "the grounder computes the instances is clingo's contract; commutation of the AST rewriting with substitution and "
-         "create_symbol round-trips are not proved.  Tie: the real IntervalSet vs the model on random interval sequences; the L4 "
-         "equation check on theory atoms with several elements and conditions.  Search: a rule schema over d(1..2) vs its own "
-         "textual instantiation (variables, pools, intervals, arithmetic, comparisons, classical negation, aggregates, element "
-         "conditions with local variables, n-fold prefixes given by variables also inside unbounded head operators, #show, "
-         "#external), equal answer sets per horizon.",
-    design="§6 C06", technique="Lean 4 proof (element conjunction semantics, IntervalSet invariant; partial) + schema-vs-instantiation metamorphic search")
+    text="Theorems (Lean 4) about telingo's own part in treating schemata: time_arg_uniform — TermTransformer (transformers/term.py, "
+         "modelled on predicate / classical-negation / pool terms incl. the side effects on future_predicates and max_shift) adds the "
+         "time parameter uniformly: rewriting commutes with pool expansion and classical negation, every instance gets the parameters "
+         "its own predicate name asks for; max_shift_is_max / future_sign_recorded; symbol_roundtrip — create_symbol applied to the "
+         "theory term by which clingo presents a ground symbol (numbers, strings, #inf/#sup, functions, tuples, classical negation, any "
+         "nesting) gives that symbol back; elements_sem / element_sem — the formula built from the ground elements of "
+         "`&tel{ f(X) : c(X) }` is the conjunction over the elements of (condition → element formula), for any number of elements in "
+         "any order; interval_add / interval_addAll — IntervalSet.add keeps the sorted-disjoint-nonadjacent invariant and the point set "
+         "is exactly the union of the added ranges.  PARTIAL: that the grounder computes the instances is clingo's contract; "
+         "commutation of the rewriting with substitution on whole statements (conditions, aggregates, theory atoms) is not proved.  "
+         "Tie: the real TermTransformer vs the model on random atom terms (result, future predicates, max_shift, error class); clingo's "
+         "theory terms of random ground symbols vs the model's symTerm and the real create_symbol; the real IntervalSet vs the model; "
+         "the L4 equation check on theory atoms with several elements and conditions (incl. equal formulas under different "
+         "conditions).  Search: a rule schema over d(1..2) vs its own textual instantiation (variables, pools, intervals, arithmetic, "
+         "comparisons, classical negation, aggregates, n-fold prefixes given by variables also inside unbounded head operators, #show, "
+         "#external; element conditions with local variables are instantiated as the documented conjunction of implications), equal "
+         "answer sets per horizon.",
+    design="§6 C06", technique="Lean 4 proof (uniform time-parameter insertion, symbol round trip, element conjunction semantics, IntervalSet invariant; partial) + class-level correspondence + schema-vs-instantiation metamorphic search")
 
 NOT_YET = {}
 
